@@ -141,6 +141,15 @@ func mergeToWriter(segments []*Segment, drops []*roaring.Bitmap,
 		}
 	} else {
 		dictLocs = make([]uint64, len(fieldsInv))
+
+		// nothing survives: still report every input document as dropped
+		newDocNums = make([][]uint64, len(segments))
+		for segI, seg := range segments {
+			newDocNums[segI] = make([]uint64, seg.footer.numDocs)
+			for docNum := range newDocNums[segI] {
+				newDocNums[segI][docNum] = docDropped
+			}
+		}
 	}
 
 	var fieldsIndexOffset uint64
